@@ -7,7 +7,7 @@
    last entry wins) if the topic's error class stores them; [last_addr id bs] is the address the last entry
    for broker id gives in the response's broker list. *)
 From Coq Require Import List ZArith Sorted.
-From SV Require Import Gen.GoInt Gen.DecTypes Gen.DecC15 C15.Model C15.ProofsView C15.ProofsRefresh C15.ProofsAtomic C15.ProofsTie.
+From SV Require Import Gen.GoInt Gen.DecTypes Gen.DecTypes2 Gen.DecC15 C15.Model C15.ProofsView C15.ProofsRefresh C15.ProofsAtomic C15.ProofsTie.
 Import ListNotations.
 Open Scope Z_scope.
 
@@ -148,3 +148,13 @@ Theorem c15_tie_topic_error_class : forall retry err e,
   (retry || topic_retry e, (if stores e then err else EK e), if stores e then ExFall else ExContinue)%bool.
 Proof. exact tie_topic_error_class. Qed.
 Print Assumptions c15_tie_topic_error_class.
+
+(* Second wave: updateBroker as a whole. For any injective naming of addresses, the regenerated function maps a
+   Go broker map that represents the model's map (same answer to every lookup) to one that represents the
+   model's broker reconciliation (new registered, re-addressed replaced, absent swept). *)
+Theorem c15_tie_update_broker : forall (enc : Z -> String.string),
+  (forall a b, enc a = enc b -> a = b) ->
+  forall bs zm m, represents enc zm m ->
+  represents enc (fst (update_broker zm (go_list enc bs))) (update_brokers bs m).
+Proof. exact tie_update_broker. Qed.
+Print Assumptions c15_tie_update_broker.
